@@ -60,7 +60,8 @@ type addrMode struct {
 
 type addrLayout struct {
 	Top, Sub, GitDir, GitFileDir, Worktree, Bare, Outside string
-	LinkDeep, LinkDeepReal, LinkTop, LinkGitDir string // symbolic links: to a directory three levels down, to the top, to the git directory
+	EnvGraftFile                                          string // set when the caller's environment names a graft file
+	LinkDeep, LinkDeepReal, LinkTop, LinkGitDir           string // symbolic links: to a directory three levels down, to the top, to the git directory
 }
 
 var addrModes = []addrMode{
@@ -98,11 +99,13 @@ var addrModes = []addrMode{
 }
 
 type addrCase struct {
-	ID      string
-	SC      cases.ScanCase
-	Flavour string
-	Grafts  string // placeholder text for info/grafts
-	Shallow bool
+	ID           string
+	SC           cases.ScanCase
+	Flavour      string
+	Grafts       string // placeholder text for info/grafts
+	GraftsEnv    bool   // the graft text goes to a file outside the repository that the caller's GIT_GRAFT_FILE names
+	Shallow      bool
+	ShallowEmpty bool // the shallow file exists but is empty (a stale marker): still refused, still untouched
 }
 
 func genAddrCase(rng *rand.Rand, id, flavour string) addrCase {
@@ -144,8 +147,14 @@ func genAddrCase(rng *rand.Rand, id, flavour string) addrCase {
 		ac.Grafts = fmt.Sprintf("{hex:c%d}\n", nc)
 	case "graft-redirect":
 		ac.Grafts = fmt.Sprintf("{hex:c%d} {hex:c%d}\n", nc, bigCommit)
+	case "graft-env-add":
+		ac.Grafts, ac.GraftsEnv = fmt.Sprintf("{hex:c%d} {hex:c%d}\n", 1, bigCommit), true
+	case "graft-env-redirect":
+		ac.Grafts, ac.GraftsEnv = fmt.Sprintf("{hex:c%d} {hex:c%d}\n", nc, bigCommit), true
 	case "shallow":
 		ac.Shallow = true
+	case "shallow-empty":
+		ac.Shallow, ac.ShallowEmpty = true, true
 	}
 	sort.SliceStable(roots, func(i, j int) bool { return roots[i].Name < roots[j].Name })
 	ac.SC = cases.ScanCase{ID: id, G: g, Roots: roots, Names: names, Style: "full"}
@@ -215,7 +224,10 @@ func buildLayout(base string, ac *addrCase) (*addrLayout, *gitrepo.Repo, error) 
 		ac.SC.Roots[i].Name = expandPlaceholders(ac.SC.Roots[i].Name, repo)
 	}
 	sort.SliceStable(ac.SC.Roots, func(i, j int) bool { return ac.SC.Roots[i].Name < ac.SC.Roots[j].Name })
-	if ac.Grafts != "" {
+	if ac.Grafts != "" && ac.GraftsEnv {
+		l.EnvGraftFile = filepath.Join(base, "caller-grafts")
+		os.WriteFile(l.EnvGraftFile, []byte(expandPlaceholders(ac.Grafts, repo)), 0o644)
+	} else if ac.Grafts != "" {
 		os.WriteFile(filepath.Join(l.GitDir, "info", "grafts"), []byte(expandPlaceholders(ac.Grafts, repo)), 0o644)
 	}
 	// linked worktree (created by git itself)
@@ -234,7 +246,11 @@ func buildLayout(base string, ac *addrCase) (*addrLayout, *gitrepo.Repo, error) 
 	}
 	os.MkdirAll(filepath.Join(l.Worktree, "sub"), 0o755)
 	if ac.Shallow {
-		os.WriteFile(filepath.Join(l.GitDir, "shallow"), []byte(head+"\n"), 0o644)
+		text := head + "\n"
+		if ac.ShallowEmpty {
+			text = ""
+		}
+		os.WriteFile(filepath.Join(l.GitDir, "shallow"), []byte(text), 0o644)
 	}
 	// bare copy of the same repository
 	l.Bare = filepath.Join(base, "bare.git")
@@ -269,6 +285,9 @@ func (e *c10Env) runAddr(l *addrLayout, m addrMode, base string, race *run.Build
 	env = append(env, "PWD="+m.Dir(l))
 	if m.Env != nil {
 		env = append(env, m.Env(l)...)
+	}
+	if l.EnvGraftFile != "" {
+		env = append(env, "GIT_GRAFT_FILE="+l.EnvGraftFile)
 	}
 	if maxprocs > 0 {
 		env = append(env, fmt.Sprintf("GOMAXPROCS=%d", maxprocs), "GORACE=halt_on_error=0")
@@ -337,11 +356,11 @@ func logProblems(ar *addrRun, l *addrLayout, m addrMode) []string {
 
 func checkC13(c *Ctx) {
 	c.Ev.Level = "exploration"
-	c.Ev.Rule = "every generated repository flavour (plain; refs/replace of a commit by a bigger/smaller one, of a tree, of a blob; info/grafts adding, dropping, redirecting parents; shallow marker) x 17 ways of addressing it (top, subdirectory, inside .git, gitfile with an absolute and a relative path, GIT_DIR absolute / relative / '.' / naming a symbolic link / with GIT_WORK_TREE, git -C dir sizer, linked worktree and its subdirectory, bare copy, start directory entered through a symbolic link with GIT_DIR=../.., symbolic link to the top and a subdirectory below it; PWD is the logical path as a shell sets it): stdout must be byte-identical across addressing modes and equal the ObjGraph oracle on the objects as stored (ScanJudge; replace refs are ordinary references); the fake git's log must show --no-replace-objects, GIT_GRAFT_FILE=/dev/null and the real GIT_DIR on every invocation; shallow => refused; distinct = distinct (graph, flavour, mode)"
+	c.Ev.Rule = "every generated repository flavour (plain; refs/replace of a commit by a bigger/smaller one, of a tree, of a blob; info/grafts adding, dropping, redirecting parents; a graft file named by the caller's GIT_GRAFT_FILE; shallow marker, also a stale empty one) x 17 ways of addressing it (top, subdirectory, inside .git, gitfile with an absolute and a relative path, GIT_DIR absolute / relative / '.' / naming a symbolic link / with GIT_WORK_TREE, git -C dir sizer, linked worktree and its subdirectory, bare copy, start directory entered through a symbolic link with GIT_DIR=../.., symbolic link to the top and a subdirectory below it; PWD is the logical path as a shell sets it): stdout must be byte-identical across addressing modes and equal the ObjGraph oracle on the objects as stored (ScanJudge; replace refs are ordinary references); the fake git's log must show --no-replace-objects, GIT_GRAFT_FILE=/dev/null and the real GIT_DIR on every invocation; shallow => refused; distinct = distinct (graph, flavour, mode)"
 	env := newScanEnv(c, true, false)
 	e := &c10Env{c: c, env: env, fake: buildFakeGit(c)}
 	rng := rand.New(rand.NewSource(c.Seed))
-	flavours := []string{"plain", "replace-commit", "replace-commit-smaller", "replace-tree", "replace-blob", "graft-add", "graft-drop", "graft-redirect", "shallow"}
+	flavours := []string{"plain", "replace-commit", "replace-commit-smaller", "replace-tree", "replace-blob", "graft-add", "graft-drop", "graft-redirect", "graft-env-add", "graft-env-redirect", "shallow", "shallow-empty"}
 	rounds := 1
 	if !quick(c) {
 		rounds = 5
